@@ -1151,11 +1151,43 @@ def _shared_tables(run: Run) -> Dict[str, str]:
     return {
         f"labrea.runtime.{RTN.TABLE}": "thread -> runtime table, guarded by the runtime lock (R-LS, R-TI)",
         f"labrea.runtime.{RTN.DEFAULTS}": "default handler registry, written under the runtime lock (R-LS)",
-        f"labrea.overload.{RTN.LOCKS_TABLE}": "per-object lock registry, guarded by the module lock of overload.py (R-LS)",
+        f"{RTN.LOCKS_MODULE}.{RTN.LOCKS_TABLE}": "per-object lock registry, guarded by the module lock next to it (R-LS)",
     }
 
 
 _MUTATORS = {"add", "discard", "remove", "append", "extend", "insert", "pop", "popitem", "clear", "update", "setdefault", "__setitem__", "__delitem__", "sort"}
+
+
+def _mutated_defaults(fn) -> List[tuple]:
+    """(parameter, line, how) for every parameter whose default is a fresh mutable container that the body mutates."""
+    a = fn.args
+    pos = a.posonlyargs + a.args
+    pairs = list(zip(pos[len(pos) - len(a.defaults):], a.defaults)) + [(x, d) for x, d in zip(a.kwonlyargs, a.kw_defaults) if d is not None]
+    out = []
+    for arg, d in pairs:
+        mutable = isinstance(d, (ast.List, ast.Dict, ast.Set, ast.ListComp, ast.DictComp, ast.SetComp)) or (
+            isinstance(d, ast.Call) and isinstance(d.func, (ast.Name, ast.Attribute)) and ast.unparse(d.func).split(".")[-1] in
+            ("list", "dict", "set", "defaultdict", "OrderedDict", "deque", "Counter", "bytearray"))
+        if not mutable:
+            continue
+        rebound = False
+        for x in astu.walk_no_nested(fn):
+            if isinstance(x, ast.Call) and isinstance(x.func, ast.Attribute) and x.func.attr in _MUTATORS and isinstance(x.func.value, ast.Name) and x.func.value.id == arg.arg:
+                out.append((arg.arg, x.lineno, f"mutated in place ({arg.arg}.{x.func.attr}(…))"))
+                break
+            if isinstance(x, (ast.Assign, ast.AugAssign, ast.Delete)):
+                tgts = x.targets if isinstance(x, (ast.Assign, ast.Delete)) else [x.target]
+                hit = False
+                for t in tgts:
+                    if isinstance(t, ast.Subscript) and isinstance(t.value, ast.Name) and t.value.id == arg.arg:
+                        out.append((arg.arg, x.lineno, f"mutated in place ({arg.arg}[…] = …)"))
+                        hit = True
+                    if isinstance(x, ast.AugAssign) and isinstance(t, ast.Name) and t.id == arg.arg:
+                        out.append((arg.arg, x.lineno, f"mutated in place ({arg.arg} {type(x.op).__name__}= …)"))
+                        hit = True
+                if hit:
+                    break
+    return out
 
 
 def rule_GS(run: Run) -> RuleResult:
@@ -1210,6 +1242,18 @@ def rule_GS(run: Run) -> RuleResult:
                 ok = full in SHARED_TABLES
                 res.add(f"{q}:mutates module-level {hit[0]}", ok, m.relpath, x.lineno,
                         f"{hit[1]}" + (f" — registered shared table: {SHARED_TABLES[full]}" if ok else " — module-level mutable state that is not one of the guarded shared tables"), nec)
+    # a mutable default argument is module-level state in disguise: it is created once, when the function is defined,
+    # and every call that does not pass the argument works on the same object
+    probe = ast.parse("def f(x, seen=[]):\n    seen.append(x)\n    return seen\n").body[0]
+    if not _mutated_defaults(probe):
+        raise AnalysisError("R-GS: the mutable-default detector no longer sees its positive example")
+    for m, cls, fn, q in iter_functions(repo):
+        if m.name.startswith("labrea.mypy"):
+            continue
+        for name, line, how in _mutated_defaults(fn):
+            res.add(f"{q}:mutable default argument {name}", False, m.relpath, line,
+                    f"the default of `{name}` is created once and {how}: what one call leaves in it is seen by every later call "
+                    "(of every object), so an outcome depends on what was evaluated, or failed, before", nec)
     if n < 3:
         raise AnalysisError(f"R-GS found only {n} writes to module-level state (the three guarded tables expected)")
     dirty = {o.file for o in res.obligations if not o.ok}
@@ -1218,6 +1262,133 @@ def rule_GS(run: Run) -> RuleResult:
             continue
         res.add(f"{m.name}:no unregistered module-level mutable state", m.relpath not in dirty, m.relpath, 1,
                 "no function of this module mutates module-level state outside the guarded shared tables", nec)
+    return res
+
+
+# ------------------------------------------------------------------ R-AI
+AMBIENT = ("os.environ", "os.environb", "os.getenv", "os.getenvb", "os.putenv", "os.getcwd", "os.getpid", "os.getppid", "os.getlogin", "os.urandom",
+           "os.uname", "os.cpu_count", "time.", "datetime.", "random.", "uuid.", "socket.", "getpass.", "platform.", "secrets.", "locale.",
+           "sys.argv", "sys.stdin", "tempfile.", "pwd.", "multiprocessing.cpu_count", "os.times", "resource.")
+
+
+def ambient_reads(tree: ast.AST) -> List[tuple]:
+    """(line, qualified name) of every reference, anywhere in the module, to a source whose value belongs to the process
+    rather than to the arguments: environment variables, clocks, random numbers, host and user identity, command line."""
+    alias: Dict[str, str] = {}
+    for n in ast.walk(tree):
+        if isinstance(n, ast.Import):
+            for a in n.names:
+                alias[a.asname or a.name.split(".")[0]] = a.name if a.asname else a.name.split(".")[0]
+        elif isinstance(n, ast.ImportFrom) and n.module and not n.level:
+            for a in n.names:
+                alias[a.asname or a.name] = f"{n.module}.{a.name}"
+    out = []
+    seen = set()
+    for n in ast.walk(tree):
+        q = None
+        if isinstance(n, ast.Attribute):
+            parts = [n.attr]
+            cur = n.value
+            while isinstance(cur, ast.Attribute):
+                parts.append(cur.attr)
+                cur = cur.value
+            if isinstance(cur, ast.Name) and cur.id in alias:
+                q = ".".join([alias[cur.id]] + parts[::-1])
+        elif isinstance(n, ast.Name) and isinstance(n.ctx, ast.Load) and n.id in alias:
+            q = alias[n.id]
+        if q is None:
+            continue
+        for a in AMBIENT:
+            if (q == a or q.startswith(a if a.endswith(".") else a + ".")) and (n.lineno, a) not in seen:
+                seen.add((n.lineno, a))
+                out.append((n.lineno, q))
+    return out
+
+
+def rule_AI(run: Run) -> RuleResult:
+    """No ambient inputs: what an operation returns, reports or stores is a function of its arguments."""
+    res = RuleResult("R-AI")
+    nec = ("an operation that reads the process environment, a clock, a random source or the host identity has an input that is "
+           "in no options dictionary: keys() cannot report it, the fingerprint cannot separate on it, and two evaluations under the "
+           "same options may differ (C01, C03, C16)")
+    # the detector must see its own positive example on every run
+    probe = ast.parse("import os\nfrom time import time as now\ndef f(o):\n    return {**o, '@env': dict(os.environ), 't': now()}\n")
+    if len(ambient_reads(probe)) != 2:
+        raise AnalysisError("R-AI: the ambient-input detector no longer sees its positive example")
+    n = 0
+    for m in run.repo.modules.values():
+        if m.name.startswith("labrea.mypy"):
+            continue
+        n += 1
+        hits = ambient_reads(m.tree)
+        res.add(f"{m.name}:reads no ambient input", not hits, m.relpath, hits[0][0] if hits else 1,
+                "no reference to environment variables, clocks, random sources, host or user identity" if not hits
+                else "reads " + ", ".join(sorted({q for _, q in hits})) + f" (line {hits[0][0]})", nec)
+    res.count("modules", n)
+    return res
+
+
+# ------------------------------------------------------------------ R-OH
+def _orders_attr(fn, attrs: Set[str], selfname: str = "self") -> List[tuple]:
+    """(line, text) of every sorted()/min()/max()/.sort() over one of the attributes (through .keys()/.items()/list()/dict())
+    that does not order by the string form."""
+    out = []
+
+    def mentions(e) -> Optional[str]:
+        for x in ast.walk(e):
+            if isinstance(x, ast.Attribute) and x.attr in attrs and isinstance(x.value, ast.Name) and x.value.id == selfname:
+                return x.attr
+        return None
+
+    def by_text(call) -> bool:
+        for k in call.keywords:
+            if k.arg == "key":
+                v = k.value
+                if isinstance(v, ast.Name) and v.id in ("repr", "str"):
+                    return True
+                if isinstance(v, ast.Lambda) and isinstance(v.body, ast.Call) and isinstance(v.body.func, ast.Name) and v.body.func.id in ("repr", "str"):
+                    return True
+        return False
+    for x in astu.walk_no_nested(fn):
+        if isinstance(x, ast.Call):
+            nm = astu.callee_name(x)
+            if nm in ("sorted", "min", "max") and x.args and mentions(x.args[0]) and not by_text(x):
+                out.append((x.lineno, f"{nm}(… self.{mentions(x.args[0])} …)"))
+            if isinstance(x.func, ast.Attribute) and x.func.attr == "sort" and mentions(x.func.value) and not by_text(x):
+                out.append((x.lineno, f"self.{mentions(x.func.value)}.sort()"))
+    return out
+
+
+def rule_OH(run: Run) -> RuleResult:
+    """Values a user supplies as dispatch aliases are only hashable: nothing may put them in order."""
+    res = RuleResult("R-OH")
+    repo = run.repo
+    nec = ("overload and switch aliases are arbitrary hashables (1, 'max', None, True …): ordering them raises TypeError for mixed types. In a "
+           "__repr__ that error replaces whatever message was being built — the CacheGetFailure a backend raises to report a miss, or the "
+           "EvaluationError that carries a failure's cause (C17, C12)")
+    probe = ast.parse("def f(self):\n    return dict(sorted(self.lookup.items(), key=lambda kv: kv[0]))\n").body[0]
+    if not _orders_attr(probe, {"lookup"}):
+        raise AnalysisError("R-OH: the ordering detector no longer sees its positive example")
+    n = 0
+    for ci in repo.classes.values():
+        if ci.module.name.startswith("labrea.mypy"):
+            continue
+        attrs = set()
+        for c in ci.mro():
+            for a, ann in c.annotations.items():
+                if "Hashable" in ast.unparse(ann):
+                    attrs.add(a)
+        if not attrs:
+            continue
+        n += 1
+        for mn, fn in ci.methods.items():
+            sn = astu.first_param(fn) or "self"
+            hits = _orders_attr(fn, attrs, sn)
+            res.add(f"{ci.qualname}.{mn}:does not order the hashable aliases {sorted(attrs)}", not hits, ci.module.relpath, hits[0][0] if hits else fn.lineno,
+                    hits[0][1] + " compares user-supplied aliases with each other" if hits else "no sorted()/min()/max()/sort() over them", nec)
+    if n < 2:
+        raise AnalysisError(f"R-OH: only {n} classes keep hashable aliases (Switch and Overloaded expected)")
+    res.count("classes", n)
     return res
 
 
